@@ -40,9 +40,9 @@ pub enum Expect {
 
 #[derive(Clone, Debug, PartialEq, Eq, Hash, Serialize, Deserialize)]
 pub enum Cell {
-    Prop { ctx: PCtx, prop: Prop, state: SessState, qos: u8 },
+    Prop { ctx: PCtx, prop: Prop, state: SessState, qos: u8, #[serde(default)] correlate: bool },
     EmptyList { subscribe: bool, state: SessState },
-    DeadHandle { op: u8 },
+    DeadHandle { op: u8, #[serde(default)] idle: bool },
     Downgrade { max_qos: Option<u8>, requested: u8, flag: bool },
 }
 
@@ -63,7 +63,7 @@ pub fn values(id: u8) -> Vec<Prop> {
         0x03 => strs().into_iter().map(ContentType).collect(),
         0x08 => vec![ResponseTopic("a".into()), ResponseTopic("r/é€/x".into()), ResponseTopic(long(300)), ResponseTopic("".into()), ResponseTopic("a/#".into())],
         0x09 => vec![CorrelationData(vec![]), CorrelationData(vec![0]), CorrelationData((0..=255).collect())],
-        0x0B => [0u32, 1, 127, 128, 268_435_455, 268_435_456, u32::MAX].iter().map(|v| SubscriptionId(*v)).collect(),
+        0x0B => [0u32, 1, 127, 128, 16_383, 16_384, 2_097_151, 2_097_152, 20_000_000, 33_554_431, 33_554_432, 268_435_455, 268_435_456, u32::MAX].iter().map(|v| SubscriptionId(*v)).collect(),
         0x11 => u32s.iter().map(|v| SessionExpiry(*v)).collect(),
         0x12 => strs().into_iter().map(AssignedClientId).collect(),
         0x13 => u16s.iter().map(|v| ServerKeepAlive(*v)).collect(),
@@ -142,16 +142,20 @@ pub fn cells() -> Vec<Cell> {
         for id in crate::refcodec::ALL_PROP_IDS {
             for prop in values(id) {
                 if ctx == PCtx::Will {
-                    out.push(Cell::Prop { ctx, prop, state: SessState::Idle, qos: 0 });
+                    out.push(Cell::Prop { ctx, prop, state: SessState::Idle, qos: 0, correlate: false });
                     continue;
                 }
                 for state in [SessState::Idle, SessState::InFlight, SessState::QuotaExhausted, SessState::SlotsFull] {
                     if ctx == PCtx::Publish {
                         for qos in 0..3u8 {
-                            out.push(Cell::Prop { ctx, prop: prop.clone(), state, qos });
+                            out.push(Cell::Prop { ctx, prop: prop.clone(), state, qos, correlate: false });
+                            // the same property next to correlate(): a second way to build the list
+                            if prop.id() != 0x09 && state == SessState::Idle {
+                                out.push(Cell::Prop { ctx, prop: prop.clone(), state, qos, correlate: true });
+                            }
                         }
                     } else {
-                        out.push(Cell::Prop { ctx, prop: prop.clone(), state, qos: 0 });
+                        out.push(Cell::Prop { ctx, prop: prop.clone(), state, qos: 0, correlate: false });
                     }
                 }
             }
@@ -162,7 +166,8 @@ pub fn cells() -> Vec<Cell> {
         out.push(Cell::EmptyList { subscribe: false, state });
     }
     for op in 0..5u8 {
-        out.push(Cell::DeadHandle { op });
+        out.push(Cell::DeadHandle { op, idle: false });
+        out.push(Cell::DeadHandle { op, idle: true });
     }
     for max_qos in [None, Some(0u8), Some(1), Some(2)] {
         for requested in 0..3u8 {
@@ -197,9 +202,9 @@ fn prelude(state: SessState) -> (Option<u16>, Vec<Step>) {
     }
 }
 
-fn op_step(ctx: PCtx, prop: &Prop, qos: u8) -> Step {
+fn op_step(ctx: PCtx, prop: &Prop, qos: u8, correlate: bool) -> Step {
     match ctx {
-        PCtx::Publish => Step::Publish(PubSpec { props: vec![prop.clone()], ..PubSpec::simple(qos, 3, 5, 9) }),
+        PCtx::Publish => Step::Publish(PubSpec { props: vec![prop.clone()], correlate: if correlate { Some(vec![1, 2, 3]) } else { None }, ..PubSpec::simple(qos, 3, 5, 9) }),
         PCtx::Subscribe => Step::Subscribe {
             filters: vec![(TopicSpec::new(4, 1), SubOpts { qos: 2, no_local: true, rap: true, retain_handling: 2 })],
             props: vec![prop.clone()],
@@ -230,9 +235,9 @@ pub fn case_of(cell: &Cell) -> Case {
             broker: BrokerMode::Scripted,
             conns: vec![conn(None, None, vec![Step::Publish(PubSpec::simple(0, 2, 2, 1))])],
         },
-        Cell::Prop { ctx, prop, state, qos } => {
+        Cell::Prop { ctx, prop, state, qos, correlate } => {
             let (rm, mut steps) = prelude(*state);
-            steps.push(op_step(*ctx, prop, *qos));
+            steps.push(op_step(*ctx, prop, *qos, *correlate));
             Case { cfg: base_cfg, broker: BrokerMode::Scripted, conns: vec![conn(rm, None, steps)] }
         }
         Cell::EmptyList { subscribe, state } => {
@@ -244,9 +249,9 @@ pub fn case_of(cell: &Cell) -> Case {
             });
             Case { cfg: base_cfg, broker: BrokerMode::Scripted, conns: vec![conn(rm, None, steps)] }
         }
-        Cell::DeadHandle { op } => {
+        Cell::DeadHandle { op, idle } => {
             let so = SubOpts { qos: 0, no_local: false, rap: false, retain_handling: 0 };
-            let mut steps = vec![Step::Publish(PubSpec::simple(1, 3, 4, 1)), Step::Eof, Step::Poll { cancel: None }];
+            let mut steps = if *idle { vec![Step::Eof, Step::Poll { cancel: None }] } else { vec![Step::Publish(PubSpec::simple(1, 3, 4, 1)), Step::Eof, Step::Poll { cancel: None }] };
             steps.push(match op {
                 0 => Step::Publish(PubSpec::simple(0, 3, 4, 2)),
                 1 => Step::Publish(PubSpec::simple(1, 3, 4, 2)),
@@ -254,7 +259,8 @@ pub fn case_of(cell: &Cell) -> Case {
                 3 => Step::Subscribe { filters: vec![(TopicSpec::new(3, 1), so)], props: vec![], cancel: None },
                 _ => Step::Unsubscribe { filters: vec![TopicSpec::new(3, 1)], props: vec![], cancel: None },
             });
-            Case { cfg: base_cfg, broker: BrokerMode::Scripted, conns: vec![conn(None, None, steps)] }
+            // a resumed connection afterwards must not transmit anything of the refused request
+            Case { cfg: base_cfg, broker: BrokerMode::Scripted, conns: vec![conn(None, None, steps), conn(None, None, vec![Step::PollIdle { max: 6 }])] }
         }
         Cell::Downgrade { max_qos, requested, flag } => Case {
             cfg: Cfg { downgrade: *flag, ..base_cfg },
@@ -327,7 +333,7 @@ pub fn eval_cell(cell: &Cell) -> (Vec<Violation>, Expect) {
                 _ => {}
             }
         }
-        Cell::Prop { ctx, prop, state, qos } => {
+        Cell::Prop { ctx, prop, state, qos, .. } => {
             expect = expectation(*ctx, prop);
             let Some(op) = trace.ops.len().checked_sub(1) else { return (viol, expect) };
             let rec = &trace.ops[op];
@@ -382,10 +388,15 @@ pub fn eval_cell(cell: &Cell) -> (Vec<Violation>, Expect) {
                 bad(&mut viol, "C19/empty-list-left-trace".into(), format!("empty topic list: transport touched or state changed ({before:?} -> {after:?})"));
             }
         }
-        Cell::DeadHandle { op: which } => {
+        Cell::DeadHandle { op: which, .. } => {
             expect = Expect::Reject;
-            let op = trace.ops.len() - 1;
+            // the request is the last op of the first connection
+            let op = trace.ops.iter().rposition(|o| o.step.0 == 0).unwrap_or(0);
             let rec = &trace.ops[op];
+            let (before, after) = samples_around(&trace, op);
+            if before != after {
+                bad(&mut viol, "C19/dead-handle-request-changed-state".into(), format!("request on a dead handle changed observable session state: {before:?} -> {after:?}"));
+            }
             if rec.res != OpRes::Err(ErrKind::Disconnected) {
                 bad(&mut viol, format!("C19/dead-handle/op={which}"), format!("request on a dead handle returned {:?}, documented error is Disconnected", rec.res));
             }
